@@ -69,13 +69,18 @@ def main():
                      'kind_free_text': 'repository-specific static analyser on Python ast: statement CFG with branch-assumption '
                                        'nodes, dominators/post-dominators, reaching definitions, access-path value numbering, '
                                        'link/data event extraction with helper inlining, typestate dataflow, abstract '
-                                       'interpretation, AST-extracted automaton vs reference automaton; %d rule families, '
+                                       'interpretation, guarded value cases, truth tables and integer-linear normal forms of '
+                                       'guards, boolean-program exploration of search loops, AST-extracted automaton vs '
+                                       'reference automaton, canonicalising pre-pass; %d rule families, '
                                        'three-valued obligations' % len(props.RULES)}],
         'checks': checks,
         'notes': 'All checks are static (family: static analysis). /repo carries %d unguarded `fix:` commits repairing genuine '
                  'defects the rules reported (listed as `fixed:` in /verif/KNOWN_FINDINGS.txt); no hook commits. seeded/ holds '
-                 '140 independently written changes (100 breaking, 40 behaviour-preserving) with demos; selftest/ holds the '
-                 'checker\'s own mutation and rewrite tests (informational, used by the thorough tier).' % nfix,
+                 '%d independently written, individually confirmed changes (breaking and behaviour-preserving) with demos; '
+                 'selftest/ holds the checker\'s own mutation and rewrite tests (informational, used by the thorough tier). '
+                 'Before the rules run, every module is brought to a canonical form by semantics-preserving rewrites '
+                 '(ttsa/normalise.py, DESIGN.md section 2).' % (nfix, len([d for d in os.listdir(os.path.join(ROOT, 'seeded'))
+                                                                           if d.startswith('C')])),
         'not_applicable': [],
     }
     json.dump(man, open(os.path.join(ROOT, 'MANIFEST.json'), 'w'), indent=1)
